@@ -87,3 +87,12 @@ impl<I: Interner> Solver<I> for SLGSolver<I> {
         }
     }
 }
+
+#[cfg(feature = "verif-hooks")]
+impl<I: Interner> SLGSolver<I> {
+    /// Verification hook: the solver's persistent state (all tables with
+    /// their answers and suspended strands), as text, for state comparison.
+    pub fn verif_fingerprint(&self) -> Vec<String> {
+        self.forest.tables.verif_dump()
+    }
+}
